@@ -68,6 +68,10 @@ def handler (fn : String) : Option Handler :=
             let pair := s!"pair={wkind s1}/{wkind s2}"
             let sz := wsize s1 + wsize s2
             let t : Rat := (1 / 1000000) * (1 + sz + vmag (q3 m1.t) + vmag (q3 m2.t))
+            -- `distance == 0` is read up to the numeric tolerance (GJK returns ~1e-15 instead of 0 on some overlaps)
+            let vs := match vs with
+              | [a, _, c, d] => [a, FloatIO.isFinite dist && q dist ≤ t, c, d]
+              | vs => vs
             -- referee: exact separation where a closed form exists, otherwise the implementation's own numbers
             let exact : Option Rat := match s1.closed, s2.closed with
               | some a, some b => (worldPair a m1 b m2).sep.map (·.1)
